@@ -22,7 +22,7 @@ pub fn work_dir() -> PathBuf {
 // special-token configurations (DESIGN §3.3): prefix-free token sets, every token >= 2 bytes
 
 pub const EXTRA_SPECIALS: &[&str] = &[
-    "<w>", "[SEP]", "<|x|>", "<a.*>", "(+)", "«fin»", "<mask>", "##", "<sep>", "$^",
+    "<w>", "[SEP]", "<|x|>", "<a.*>", "(+)", "«fin»", "<mask>", "##", "<sep>", "$^", "§",
 ];
 
 #[derive(Debug, Clone, Serialize, Deserialize, PartialEq)]
